@@ -766,3 +766,67 @@ package gtfs
 //@   loop 7 invariant [ctx] fresh(result.Vehicles) && (forall k int :: 0 <= k && k < len(vehiclesWithNoID) ==> vehiclesWithNoID[k] != nil)
 //@   loop 7 invariant [trips-sorted] forall a int, b int :: 0 <= a && a < b && b < len(result.Trips) ==> !result.Trips[b].ID.Less(result.Trips[a].ID)
 //@   loop 7 invariant [trips-unique] forall a int, b int :: 0 <= a && a < len(result.Trips) && 0 <= b && b < len(result.Trips) && a != b ==> result.Trips[a].ID != result.Trips[b].ID
+
+// ---------------------------------------------------------------------------------------------------------------
+// The file table of ParseStatic. ParseStatic itself (archive/zip, a table of function values held in memory) is
+// outside the verifier's reach: each table entry is verified on its own, under the precondition stated here about the
+// variables it shares with the other entries. That ParseStatic's loop establishes these preconditions (it opens each
+// file with csv.New, runs the entries in table order) is NOT proved: it is covered by the bounded stand-in
+// "archive-presentation" and listed among the assumptions in the evidence.
+//@ func ParseStatic$1
+//@   props C01 C05 C06
+//@   requires file != nil && csvOK(file) && result != nil
+//@ func ParseStatic$2
+//@   props C01 C03 C05
+//@   requires file != nil && csvOK(file) && result != nil
+//@ func ParseStatic$3
+//@   props C01 C03 C05 C10
+//@   requires file != nil && csvOK(file) && result != nil
+//@   ensures [parents-are-elements-of-the-result] forall i int :: 0 <= i && i < len(result.Stops) ==> nilOrElement(result.Stops[i].Parent, result.Stops)
+//@ func ParseStatic$4
+//@   props C01 C03 C05
+//@   requires file != nil && csvOK(file) && result != nil
+//@ func ParseStatic$5
+//@   props C01 C05 C11
+//@   requires file != nil && csvOK(file) && serviceIdToService != nil && (forall id string :: has(serviceIdToService, id) ==> len(serviceIdToService[id].AddedDates) == 0 && cap(serviceIdToService[id].AddedDates) == 0 && len(serviceIdToService[id].RemovedDates) == 0 && cap(serviceIdToService[id].RemovedDates) == 0)
+//@   ensures [no-exceptions-yet] (forall id string :: has(serviceIdToService, id) ==> len(serviceIdToService[id].AddedDates) == 0 && cap(serviceIdToService[id].AddedDates) == 0 && len(serviceIdToService[id].RemovedDates) == 0 && cap(serviceIdToService[id].RemovedDates) == 0)
+//@ func ParseStatic$6
+//@   props C01 C05 C11
+//@   requires file != nil && csvOK(file) && serviceIdToService != nil && (forall id string :: has(serviceIdToService, id) ==> len(serviceIdToService[id].AddedDates) == 0 && cap(serviceIdToService[id].AddedDates) == 0 && len(serviceIdToService[id].RemovedDates) == 0 && cap(serviceIdToService[id].RemovedDates) == 0)
+//@   ensures [range-covers-every-exception-date] cdRangeCovers(serviceIdToService)
+//@ func ParseStatic$7$1
+//@   props C05 C06 C08
+//@   requires result != nil && 0 <= i && i < len(result.Services) && 0 <= j && j < len(result.Services)
+//@   comparator result.Services[i].Id < result.Services[j].Id
+//@   assigns nothing
+//@ func ParseStatic$7
+//@   props C05 C06 C08 C11
+//@   requires result != nil
+//@   ensures [services-sorted-by-id] forall a int, b int :: 0 <= a && a < b && b < len(result.Services) ==> result.Services[a].Id <= result.Services[b].Id
+//@   loop 1 invariant result != nil
+//@ func ParseStatic$8
+//@   props C01 C03 C05
+//@   requires file != nil && csvOK(file) && result != nil && shapeIdToShape != nil
+//@   loop 1 invariant result != nil && shapeIdToShape != nil && result.Shapes == pre(result.Shapes)
+//@   loop 1 invariant [shapes-by-id-are-elements] forall k int :: 0 <= k && k < $i ==> has(shapeIdToShape, result.Shapes[k].ID)
+//@ func ParseStatic$9
+//@   props C01 C03 C05
+//@   requires file != nil && csvOK(file) && result != nil && shapeIdToShape != nil && tripIdToScheduledTrip != nil
+//@   loop 1 invariant result != nil && tripIdToScheduledTrip != nil && result.Trips == pre(result.Trips)
+//@ func ParseStatic$10
+//@   props C01 C05
+//@   requires file != nil && csvOK(file) && tripIdToScheduledTrip != nil
+//@ func ParseStatic$11
+//@   props C01 C03 C05 C08
+//@   requires file != nil && csvOK(file) && result != nil
+//@   requires [no-stop-times-yet] forall j int :: 0 <= j && j < len(result.Trips) ==> len(result.Trips[j].StopTimes) == 0 && cap(result.Trips[j].StopTimes) == 0
+//@   ensures [stop-times-ordered-by-sequence] forall j int, a int, b int :: 0 <= j && j < len(result.Trips) && 0 <= a && a < b && b < len(result.Trips[j].StopTimes) ==> result.Trips[j].StopTimes[a].StopSequence <= result.Trips[j].StopTimes[b].StopSequence
+
+// Root: termination needs the parent links to form a forest, which parseStops establishes (bounded stand-in
+// "parent-forest"; see parseStops loop 3). Here: no nil dereference given a non-nil receiver.
+//@ func (*Stop).Root
+//@   props C03 C05
+//@   requires stop != nil
+//@   ensures result != nil && result.Parent == nil
+//@   loop 1 invariant stop != nil
+//@   loop 1 bounded parent-forest
